@@ -32,7 +32,7 @@ def span_coverage_of(reads, positions=None):
     return cov
 
 
-def run_phase(main_vcf, phase_vcfs=(), ped=None, bams=(), reference=False, lists=(), keep_dir=False, coverage_guard=None, **opts):
+def run_phase(main_vcf, phase_vcfs=(), ped=None, bams=(), reference=False, lists=(), keep_dir=False, coverage_guard=None, stale_lists=False, **opts):
     """Run run_whatshap on text inputs. Returns dict(out, read_list, gtchange_list, recomb_list, solver_calls, selections, error)."""
     import whatshap.cli.phase as P
     logging.disable(logging.CRITICAL)
@@ -60,6 +60,14 @@ def run_phase(main_vcf, phase_vcfs=(), ped=None, bams=(), reference=False, lists
             kw["gtchange_list_filename"] = os.path.join(d, "gtchanges.tsv")
         if "recomb_list" in lists:
             kw["recombination_list_filename"] = os.path.join(d, "recomb.tsv")
+        if stale_lists:
+            # the list paths already hold the lists of an earlier run (re-run into the same output directory): none of it may survive
+            for key, stale in (("read_list_filename", "#readname\tsource_id\tsample\tphaseset\thaplotype\tcovered_variants\tfirst_variant_pos\tlast_variant_pos\nSTALEREAD\t0\tSTALE\t1\t0\t2\t1\t2\n"),
+                               ("gtchange_list_filename", "#sample\tchromosome\tposition\tREF\tALT\told_gt\tnew_gt\nSTALE\tchrSTALE\t0\tA\tC\t0/1\t1/1\n"),
+                               ("recombination_list_filename", "#child_id chromosome position1 position2 transmitted_hap_father1 transmitted_hap_father2 transmitted_hap_mother1 transmitted_hap_mother2 recombination_cost\nSTALE chrSTALE 1 2 0 1 0 0 5\n")):
+                if key in kw:
+                    with open(kw[key], "w") as f:
+                        f.write(stale)
         out = os.path.join(d, "out.vcf")
         orig_table, orig_select = P.PedigreeDPTable, P.select_reads
         orig_read = P.PhasedInputReader.read
